@@ -5,7 +5,7 @@ from fractions import Fraction
 
 import numpy as np
 
-from common import Ctx, enc, q, run_model, ModelError, import_amisc
+from common import Ctx, enc, q, unq, run_model, ModelError, import_amisc
 import systems
 
 
@@ -27,17 +27,19 @@ def external_indicators(system, targets, nr):
         for pos, (a, b) in enumerate(list(comp.candidate_set)):
             y_c = system.predict(x, targets=targets, index_set={comp.name: {(a, b)}}, incremental={comp.name: True})
             errs = [rel_err(y_c[v], y_curr[v]) for v in y_c if v in targets]
+            outs = [(np.ravel(np.asarray(y_c[v], dtype=float)).tolist(), np.ravel(np.asarray(y_curr[v], dtype=float)).tolist()) for v in y_c if v in targets]
             good = [e for e in errs if e == e]
             err = max(good) if good else float('nan')
             cost = max(1.0, float(comp.get_cost(a, b)))
             scan.append({'comp': comp.name, 'ci': ci, 'pos': pos, 'alpha': tuple(a), 'beta': tuple(b), 'err': err, 'cost': float(comp.get_cost(a, b)),
-                         'indicator': err / cost if err == err else float('nan')})
+                         'indicator': err / cost if err == err else float('nan'), 'outs': outs})
     return scan
 
 
 def run_steps(ctx: Ctx):
     rng = ctx.rng
     lines, meta = [], []
+    lines2, meta2 = [], []
     for n in range(ctx.pick(10, 120)):
         costs = {f'c{k}': rng.choice([0.25, 1.0, 2.0, 5.0]) for k in range(5)} if rng.random() < 0.7 else None
         by_alpha = costs is not None and rng.random() < 0.5
@@ -139,6 +141,22 @@ def run_steps(ctx: Ctx):
             if len(top) < 2 or top[0] - top[1] > 1e-9 * (1 + abs(top[0])):
                 lines.append('refine_select ' + enc([[[s['ci'], s['pos'], ([] if s['err'] != s['err'] else [q(s['err'])]), q(s['cost'])] for s in scan]]))
                 meta.append((case, (chosen[0]['ci'], chosen[0]['pos'])))
+                # ... and from the look-ahead predictions themselves: relative errors, their maximum over the requested outputs and the division by
+                # max(1, cost) recomputed by the extracted select_sq in exact rationals (squares; Props/C08X.v: same choice)
+                if sum(len(p_) for s in scan for p_, _ in s['outs']) <= 4000:
+                    enc_v = lambda vals: [[] if v != v else [q(Fraction(v))] for v in vals]
+                    lines2.append('refine_select_sq ' + enc([[[s['ci'], s['pos'], [[enc_v(p_), enc_v(t_)] for p_, t_ in s['outs']], q(Fraction(s['cost']))] for s in scan]]))
+                    meta2.append((case, (chosen[0]['ci'], chosen[0]['pos']), [s['indicator'] for s in scan]))
+    for (case, want, inds), mo in zip(meta2, run_model(lines2, shards=8) if lines2 else []):
+        ctx.count('scans_from_predictions_compared')
+        if isinstance(mo, ModelError):
+            ctx.disagree('C08:model-error', case, str(mo), None); continue
+        if list(mo[0]) != [list(want)]:
+            ctx.disagree('C08:select from predictions', case, mo[0], want); continue
+        for k_, (mi, fi) in enumerate(zip(mo[1], inds)):
+            m2 = None if not mi else unq(mi[0])
+            if (m2 is None) != (fi != fi) or (m2 is not None and abs(Fraction(fi) ** 2 - m2) > Fraction(1, 10 ** 8) * (m2 + Fraction(1, 10 ** 30))):
+                ctx.disagree('C08:error indicator from predictions', {**case, 'candidate': k_}, None if m2 is None else float(m2) ** 0.5, fi); break
     for (case, want), mo in zip(meta, run_model(lines) if lines else []):
         ctx.count('scans_compared')
         if isinstance(mo, ModelError):
